@@ -23,9 +23,9 @@ OffsAll == {0, 1501, 25200, 115200, 118799}
 
 PeriodsSmall == {5, 60}
 PeriodsAll == {1, 5, 7, 15, 60}
-KSmall == {0, 1, 4}
-KMid == {0, 1, 2, 13}
-KAll == {0, 1, 2, 13, 100, 288}
+KSmall == {0, 1, 4, 80}      \* 80 periods of 5 min at 208 V: force_feasible caps a 50 kWh document at 44.37 kWh
+KMid == {0, 1, 2, 12, 13}
+KAll == {0, 1, 2, 12, 13, 80, 100, 288}
 \* 0.05 0.5 3.3 7.9 14.2 50 kWh in W*min
 EnergiesSmall == {30000, 474000, 3000000}
 EnergiesAll == {3000, 30000, 198000, 474000, 852000, 3000000}
